@@ -16,6 +16,7 @@
 
 use std::{cmp, thread};
 use std::fs::{self, canonicalize, create_dir_all, read_link, File, Metadata};
+use std::os::unix::fs::MetadataExt;
 use std::path::{Path, PathBuf};
 use std::sync::Arc;
 
@@ -45,13 +46,31 @@ impl CopyHandle {
         let infd = File::open(from)?;
         let metadata = infd.metadata()?;
 
+        // The destination may designate the source itself (another
+        // spelling, a symlink or a hard link). Creating it would
+        // truncate the source, so refuse before touching anything.
+        if let Ok(to_meta) = fs::metadata(to) {
+            if to_meta.dev() == metadata.dev() && to_meta.ino() == metadata.ino() {
+                return Err(XcpError::DestinationExists("Source and destination are the same file.", to.to_path_buf()).into());
+            }
+        }
+
         if needs_backup(to, config)? {
             let backup = get_backup_path(to)?;
             info!("Backup: Rename {:?} to {:?}", to, backup);
             fs::rename(to, backup)?;
         }
 
-        let outfd = File::create(to)?;
+        // Open without truncating so the identity of what was actually
+        // opened can be checked first: the path may have become an
+        // alias of the source since the check above (e.g. through a
+        // symlink another worker has just created).
+        let outfd = File::options().write(true).create(true).truncate(false).open(to)?;
+        let out_meta = outfd.metadata()?;
+        if out_meta.dev() == metadata.dev() && out_meta.ino() == metadata.ino() {
+            return Err(XcpError::DestinationExists("Source and destination are the same file.", to.to_path_buf()).into());
+        }
+        outfd.set_len(0)?;
         allocate_file(&outfd, metadata.len())?;
 
         let handle = CopyHandle {
